@@ -178,6 +178,10 @@ func SecretData(o *Obj) map[string][]byte {
 	case "bad":
 		d["tls.crt"] = []byte("-----BEGIN CERTIFICATE-----\nZm9v\n-----END CERTIFICATE-----\n")
 		d["tls.key"] = []byte("not a key")
+	case "mismatch":
+		// both halves are well formed, but the key belongs to another certificate
+		d["tls.crt"] = PoolCert(o.Cert).CrtPEM
+		d["tls.key"] = PoolCert((o.Cert + 1) % PoolSize()).KeyPEM
 	case "empty":
 	}
 	return d
